@@ -231,7 +231,7 @@ def run(ctx):
             k = r.randrange(3, 9)
             jobs.append(([r.choice(items) for _ in range(k)], None, None, "seq"))
         # hash seeds, cwd, populated directory
-        for it in items[: (len(items) if thorough else 6)]:
+        for it in (items if thorough else items[:6] + gen):
             jobs.append(([it], {"PYTHONHASHSEED": "1"}, None, "hashseed1"))
             jobs.append(([it], {"PYTHONHASHSEED": "4242"}, None, "hashseed4242"))
             jobs.append(([it], None, work, "cwd"))
